@@ -1,11 +1,46 @@
 package loader
 
-import "github.com/jsightapi/jsight-schema-go-library/notations/jschema/internal/schema"
+import (
+	"sort"
 
+	"github.com/jsightapi/jsight-schema-go-library/notations/jschema/internal/schema"
+)
+
+// AddUnnamedTypes copies the type tables of the added types (the unnamed types of
+// their "or" rules, and the types which were added to them) into the root schema.
+//
+// The order is fixed and a name which the root already knows is kept: the result
+// must not depend on the iteration order of a map, and a type added to another
+// type must not replace the root's own type of the same name. A type which
+// arrives with another type is processed as well.
 func AddUnnamedTypes(rootSchema *schema.Schema) {
-	for _, typ := range rootSchema.TypesList() {
-		for unnamed, unnamedTyp := range typ.Schema().TypesList() {
-			rootSchema.AddType(unnamed, unnamedTyp)
+	done := make(map[string]struct{}, len(rootSchema.TypesList()))
+	for {
+		names := make([]string, 0, len(rootSchema.TypesList()))
+		for name := range rootSchema.TypesList() {
+			if _, ok := done[name]; !ok {
+				names = append(names, name)
+			}
+		}
+		if len(names) == 0 {
+			return
+		}
+		sort.Strings(names)
+
+		for _, name := range names {
+			done[name] = struct{}{}
+			typ := rootSchema.TypesList()[name]
+			nested := typ.Schema().TypesList()
+			nestedNames := make([]string, 0, len(nested))
+			for n := range nested {
+				nestedNames = append(nestedNames, n)
+			}
+			sort.Strings(nestedNames)
+			for _, n := range nestedNames {
+				if _, ok := rootSchema.TypesList()[n]; !ok {
+					rootSchema.AddType(n, nested[n])
+				}
+			}
 		}
 	}
 }
